@@ -228,6 +228,7 @@ fn run_in(case: &C03Case, exec: &mut Exec) -> Result<CaseInfo, Fail> {
         .writers
         .iter()
         .map(|(sd, fs)| WriterSpec {
+            remove_lag: None,
             start_delay_us: *sd as u64,
             frames: fs
                 .iter()
